@@ -5,6 +5,7 @@ import (
 	"fmt"
 	"math/rand"
 	"strings"
+	"unicode/utf8"
 
 	"verif/fw"
 	"verif/sess"
@@ -20,7 +21,14 @@ type c07Case struct {
 	// earlier Readline calls on the same Shell, each ended by accept-line: their undo states
 	// must not show in the judged call (every call edits a new line)
 	Prior [][]string `json:"prior,omitempty"`
+	// the text typed by "word" / "char" (default "foo bar" / "x"): multi-byte and double-width
+	// characters in half of the random cases (states are compared as text, positions are characters)
+	Word string `json:"word,omitempty"`
+	Char string `json:"char,omitempty"`
 }
+
+var c07Words = []string{"жук b", "é à", "日本 語", "a ü c", "e\u0301x y", "😀 z", "ab 界", "ñ"}
+var c07Chars = []string{"ж", "é", "界", "😀", "ü", "x"}
 
 // operation -> keys (emacs)
 var c07Emacs = map[string]string{
@@ -104,6 +112,10 @@ func c07Gen(r *rand.Rand, tier string, idx int) any {
 	if c.Mode == "vi" {
 		c.N = 1
 	}
+	if r.Intn(2) == 0 {
+		c.Word, c.Char = pick(r, c07Words), pick(r, c07Chars)
+		c.Inputrc += "set convert-meta off\nset input-meta on\nset output-meta on\n" // the usual UTF-8 settings
+	}
 	if c.Mode == "emacs" && !c.Walk && r.Intn(4) == 0 {
 		for k, nk := 0, 1+r.Intn(2); k < nk; k++ {
 			var ops []string
@@ -127,6 +139,18 @@ func c07Run(env *fw.Env, raw json.RawMessage) fw.Outcome {
 	if c.Mode == "vi" {
 		keys = c07Vi
 	}
+	if c.Word != "" {
+		k2 := map[string]string{}
+		for k, v := range keys {
+			k2[k] = v
+		}
+		if c.Mode == "vi" {
+			k2["word"], k2["char"] = "i"+c.Word+"\x1b", "a"+c.Char+"\x1b"
+		} else {
+			k2["word"], k2["char"] = c.Word, c.Char
+		}
+		keys = k2
+	}
 	cfg := c.cfg()
 	cfg.Setup = func(s *sess.Session) {
 		if c.Mode == "emacs" {
@@ -148,6 +172,9 @@ func c07Run(env *fw.Env, raw json.RawMessage) fw.Outcome {
 			}
 			if c.Mode == "emacs" && ks[0] == 0x18 && len(ks) > 1 {
 				n = 2 // C-x prefix
+			}
+			if ks[0] >= 0x80 {
+				_, n = utf8.DecodeRuneInString(ks) // one character per read
 			}
 			plan = append(plan, sess.Step{W: ks[:n], Tag: op})
 			ks = ks[n:]
@@ -189,7 +216,7 @@ func c07Run(env *fw.Env, raw json.RawMessage) fw.Outcome {
 		exit = steps("\r")
 	}
 	res := s.Call(plan, exit)
-	ctx := fmt.Sprintf("mode=%s earlier-calls=%v ops=%v n=%d", c.Mode, c.Prior, c.Ops, c.N)
+	ctx := fmt.Sprintf("mode=%s earlier-calls=%v ops=%v n=%d word=%q char=%q", c.Mode, c.Prior, c.Ops, c.N, c.Word, c.Char)
 	if !stdFailures(&o, res, ctx) {
 		o.O.Sample = map[string]any{"ctx": ctx}
 		return o.O
@@ -360,6 +387,9 @@ func c07Run(env *fw.Env, raw json.RawMessage) fw.Outcome {
 				o.Viol("repeated-undo-does-not-reach-the-initial-content|"+c.Mode+"|"+lenClass, ctx+fmt.Sprintf(" after %d more undos the buffer is %q, the line started as %q", tail, bEnd, initial))
 			}
 		}
+	}
+	if c.Word != "" {
+		o.Add("cases_typing_multibyte_text", 1)
 	}
 	if hasEdit && hasUndo {
 		o.Cover(c.Mode + "|" + strings.Join(c.Ops, ","))
